@@ -20,7 +20,9 @@ RULE = (
 	'in which each member is absent or given in one of its accepted forms (int / object of the generated class for integers; hex or base32 str, '
 	'bytes, SDK object for byte arrays; lower-case name, int, enum object for enums; space separated names, int, flag object for flags; dict for '
 	'structs with a parser, objects otherwise; list for arrays of length 0-8 in random order; bytes or str for byte strings; conditional members '
-	'present/absent), keys in random order; then one corruption per category of the malformed stream applied to such a descriptor. distinct = '
+	'present/absent), keys in random order; then one corruption per category of the malformed stream applied to such a descriptor; factories built '
+	'with random type_rule_overrides tables (which converter is asked what, what the member holds, members of other types untouched); one '
+	'descriptor object handed to the factories of two networks in both orders; the caller\'s descriptor compared before/after every call. distinct = '
 	'distinct (network, entry point, autosort, descriptor); all non-trivial (each reaches the real factory).')
 TRUSTED_BASE = [
 	'Lean 4.33 kernel; axioms of the property theorems: subset of {propext, Classical.choice, Quot.sound}',
@@ -32,7 +34,9 @@ TRUSTED_BASE = [
 	'harness conversion between Python objects and wire values (harness/codec.py, state_wire in harness/c10.py)',
 ]
 ASSUMPTIONS = [
-	'type_rule_overrides (AccountDescriptorRepository) are out of scope: facades are built without a repository',
+	'type_rule_overrides are exercised by building TransactionFactory(network, table) directly with generated tables (identity, constant, raising, '
+	'list-returning, int->str and class-wrapping converters keyed by module or SDK classes); the AccountDescriptorRepository that the facades '
+	'use to produce such a table is out of scope',
 	'a descriptor is a dict with str keys; array members are given as lists (str / dict / tuple / bytes iterate in Python and are not modelled)',
 	'a list or dict whose len() equals the size of a byte-array pod is not generated (ByteArray.__init__ only checks len())',
 	'members are compared by state (int value, bytes, member tree); the Python class of a byte-array object of the right size is not compared '
@@ -40,11 +44,24 @@ ASSUMPTIONS = [
 	'a byte string whose emptiness decides its own presence (nem parent_name) is generated non-empty',
 	'a member whose content create itself reads (the discriminant of a conditional member, the nem transfer message) is not given an ill-typed '
 	'value (wrong shape); ill-typed values are truthy (a falsy one can switch a condition off in Python)',
+	'overrides are tried with autosort off on types one of whose members is present or absent depending on a measured size (nem message, levy): '
+	'sort() measures such members, Python raises when it measures an ill-typed value an override left behind, the codec model does not measure pods',
+	'an override that returns a list for an array element is not generated; overrides that reach the sort key of a keyed array are tried with '
+	'autosort off (Python orders whatever the override left as key, ints or strs; the codec model only orders well-typed keys)',
 	'a member of abstract type (nem inner_transaction) is always described: its constructor default is an instance of the abstract class',
 ]
 
 MASK63 = (1 << 63) - 1
 RAW = {'s': '<raw>', 'f': []}
+
+
+def raw_of(value):
+	"""a member holding a value of the wrong class, as the model renders it (an int or a byte string keeps its content)"""
+	if isinstance(value, int) and not isinstance(value, bool):
+		return {'s': '<raw>', 'f': [['int', str(value)]]}
+	if isinstance(value, (bytes, bytearray, memoryview)):
+		return {'s': '<raw>', 'f': [['bytes', {'b': bytes(value).hex().upper()}]]}
+	return RAW
 # private-attribute, method-name and class-attribute keys were known findings (copy_to tested keys with hasattr alone) until the key test was
 # repaired; they are plain members of the malformed stream now: accepted = VIOLATION
 KNOWN = {
@@ -85,6 +102,8 @@ def build_rules_facts(path):
 			return node.value
 		if isinstance(node, ast.Name):
 			return env[node.id] if node.id in env else ('class', node.id)
+		if isinstance(node, ast.Attribute) and isinstance(node.value, ast.Name):
+			return ('module-class', node.attr)  # `sc.UnresolvedMosaicId`
 		if isinstance(node, (ast.List, ast.Tuple)):
 			return [ev(item) for item in node.elts]
 		if isinstance(node, ast.Dict):
@@ -119,7 +138,8 @@ def build_rules_facts(path):
 				if 'add_struct_parser' == call.func.attr:
 					facts['structs'].append(args[0])
 				elif 'add_pod_parser' == call.func.attr:
-					facts['pods'].append([args[0], args[1][1]])
+					if 'module-class' != args[1][0]:  # a class of the generated module is what autodetect registers anyway
+						facts['pods'].append([args[0], args[1][1]])
 				elif 'add_array_parser' == call.func.attr:
 					facts['arrays'].append(args[0][len('struct:'):] if args[0].startswith('struct:') else args[0])
 				elif 'autodetect' == call.func.attr:
@@ -130,6 +150,8 @@ def build_rules_facts(path):
 				for item in ev(statement.iter):
 					bind(statement.target, item)
 					run(statement.body)
+			elif isinstance(statement, ast.Assign):
+				pass  # an assignment to something that is no plain name registers nothing
 			elif isinstance(statement, ast.Return):
 				return
 			else:
@@ -160,6 +182,21 @@ def converter_facts(path):
 	raise ValueError(f'no type converter found in {path}')
 
 
+def flags_parser_rejects_negative():
+	"""does the int branch of the flags parser (RuleBasedTransactionFactory.add_flags_parser) refuse negative numbers before calling the Flag class?"""
+	path = os.path.join(REPO, 'sdk/python/symbolchain/RuleBasedTransactionFactory.py')
+	function = _class_function(path, 'RuleBasedTransactionFactory', 'add_flags_parser')
+	for node in ast.walk(function):
+		if isinstance(node, ast.If) and isinstance(node.test, ast.Call) and isinstance(node.test.func, ast.Name) and 'isinstance' == node.test.func.id:
+			if isinstance(node.test.args[1], ast.Name) and 'int' == node.test.args[1].id:
+				for inner in node.body:
+					if isinstance(inner, ast.If) and isinstance(inner.test, ast.Compare) and 1 == len(inner.test.ops) and isinstance(inner.test.ops[0], ast.Lt):
+						zero = inner.test.comparators[0]
+						if isinstance(zero, ast.Constant) and 0 == zero.value and any(isinstance(item, ast.Raise) for item in inner.body):
+							return True
+	return False
+
+
 def network_facts(name):
 	"""Everything of Config except schema and networkId, as a JSON-able dict (single source for driver and Generated/C10Consts.lean)."""
 	from translate import pyconst
@@ -183,6 +220,7 @@ def network_facts(name):
 		'sdkClasses': [[key, value] for key, value in sdk_classes.items()],
 		'addressClass': recognised, 'addressKind': name, 'addressTarget': target, 'addressAsText': as_text,
 		'idAutofill': 'symbol' == name, 'messageHack': 'nem' == name,
+		'flagsRejectNegative': flags_parser_rejects_negative(),
 	}, identifiers
 
 
@@ -231,6 +269,7 @@ def translate(ctx):
 			f'  addressAsText := {"true" if facts["addressAsText"] else "false"}',
 			f'  idAutofill := {"true" if facts["idAutofill"] else "false"}',
 			f'  messageHack := {"true" if facts["messageHack"] else "false"}',
+			f'  flagsRejectNegative := {"true" if facts["flagsRejectNegative"] else "false"}',
 			f'def {name}NetworkIdentifiers : List Int := [{", ".join(str(value) for value in identifiers.values())}]',
 		]
 	parts.append('end SymbolVerif.Generated.C10\n')
@@ -314,6 +353,7 @@ class Side:
 			from symbolchain.facade.NemFacade import NemFacade as Facade
 			from symbolchain.nem.Network import Address
 		self.facade = Facade(network_name)
+		self.factory_class = type(self.facade.transaction_factory)
 		self.address_class = Address
 		self.sdk = {key: getattr(CryptoTypes, key) for key in ('Hash256', 'PublicKey', 'Signature', 'PrivateKey', 'SharedKey256')}
 		self.sdk['Address'] = Address
@@ -323,9 +363,10 @@ class Side:
 		self.sdk_mapping = dict((key, value) for key, value in self.facts['sdkMapping'])
 		self.values = codec.ValueGen(self.net, ctx.rng, transform=c01.python_transform)
 		self.defaults = {}
+		self.config = dict(self.facts, networkId=self.network_id)
 		if ctx.driver:
 			answer = ctx.driver.ask(f'schema {name} {self.net.json}')
-			config = dict(self.facts, networkId=self.network_id)
+			config = self.config
 			answer2 = ctx.driver.ask(f'config {self.cid} {name} {codec.dumps(config)}')
 			if not answer.startswith('ok') or 'ok' != answer2:
 				ctx.fail('corr', f'driver rejected the {name} schema or configuration: {answer} / {answer2}', {'network': name})
@@ -365,12 +406,12 @@ class Side:
 		if isinstance(value, str):
 			return {'s': '<str>', 'f': [['utf8', {'b': value.encode('utf8').hex().upper()}]]}
 		if 'int' == kind['k']:
-			return str(value) if isinstance(value, int) and not isinstance(value, bool) else RAW
+			return str(value) if isinstance(value, int) and not isinstance(value, bool) else raw_of(value)
 		if 'barray' == kind['k']:
-			return {'b': bytes(value).hex().upper()} if isinstance(value, (bytes, bytearray, memoryview)) else RAW
+			return {'b': bytes(value).hex().upper()} if isinstance(value, (bytes, bytearray, memoryview)) else raw_of(value)
 		if 'array' == kind['k']:
 			if not isinstance(value, list):
-				return RAW
+				return raw_of(value)
 			return [self.type_wire(kind['elem'], item) for item in value]
 		return self.type_wire(kind['ty'], value)
 
@@ -383,7 +424,7 @@ class Side:
 		typedef = self.net.types[type_name]
 		class_name = type(value).__name__
 		if type(value).__module__ != self.net.module.__name__ or class_name not in self.net.types:
-			return RAW
+			return raw_of(value)
 		actual = self.net.types[class_name]
 		if class_name != type_name:
 			if 'bytes' == typedef['k'] and 'bytes' == actual['k'] and typedef['n'] == actual['n']:
@@ -614,17 +655,50 @@ class Side:
 		base = self.facts['embBase'] if embedded else self.facts['txBase']
 		return [(child, snake(child[len('Embedded'):] if embedded else child)) for child in self.net.children(base)]
 
-	def run_impl(self, entry, autosort, wire):
-		"""-> ('ok', transaction) | ('err', exception class name)"""
-		descriptor = self.materialize(wire)
-		factory = self.facade.transaction_factory
+	def fingerprint(self, value):
+		"""structural identity of a descriptor value (to see whether create touched the caller's objects)"""
+		# pylint: disable=too-many-return-statements
+		from enum import Enum
+
+		from symbolchain.BaseValue import BaseValue
+		from symbolchain.ByteArray import ByteArray
+		if isinstance(value, dict):
+			return ('dict', [(key, self.fingerprint(item)) for key, item in value.items()])
+		if isinstance(value, (list, tuple)):
+			return (type(value).__name__, [self.fingerprint(item) for item in value])
+		if value is None or isinstance(value, (int, str, bytes, bytearray, float)):
+			return (type(value).__name__, bytes(value) if isinstance(value, bytearray) else value)
+		if isinstance(value, ByteArray):
+			return (type(value).__module__, type(value).__name__, bytes(value.bytes))
+		if isinstance(value, BaseValue):
+			return (type(value).__module__, type(value).__name__, value.value)
+		if isinstance(value, Enum):
+			return (type(value).__module__, type(value).__name__, value.value)
+		if type(value).__module__ == self.net.module.__name__:
+			return (type(value).__name__, [(name, self.fingerprint(item)) for name, item in vars(value).items()])
+		return ('object', repr(value))
+
+	def run_impl(self, entry, autosort, wire, descriptor=None, factory=None):
+		"""-> ('ok', transaction) | ('err', exception class name); also checks that the caller's descriptor is left as it was"""
+		if descriptor is None:
+			descriptor = self.materialize(wire)
+		factory = factory or self.facade.transaction_factory
+		before = self.fingerprint(descriptor)
 		try:
 			function = factory.create_embedded if 'create_embedded' == entry else factory.create
-			return 'ok', codec.guarded(function, descriptor, autosort)
+			result = 'ok', codec.guarded(function, descriptor, autosort)
 		except codec.Timeout:
 			return 'timeout', None
 		except Exception as ex:  # pylint: disable=broad-except
-			return 'err', f'{type(ex).__name__}: {ex}'
+			result = 'err', f'{type(ex).__name__}: {ex}'
+		after = self.fingerprint(descriptor)
+		self.ctx.count('descriptor-unchanged-checks')
+		if before != after:
+			case = self.case_of(entry, autosort, wire, category='descriptor-mutated')
+			self.ctx.fail(
+				'property', f'{self.label(case)}: {entry} modifies the caller\'s descriptor: {first_difference_plain(before, after)}',
+				dict(case, after=repr(after)[:2000]))
+		return result
 
 	def request(self, entry, autosort, wire):
 		return f'create {self.cid} {1 if autosort else 0} {1 if "create_embedded" == entry else 0} {codec.dumps(wire)}'
@@ -721,7 +795,7 @@ class Side:
 		fields = self.net.carrying(type_name)
 		return w_dict(pairs), {'s': type_name, 'f': [[field['name'], members[field['name']]] for field in fields]}, forms
 
-	def check_valid(self, entry, autosort, type_name, wire, expected, forms, answer):
+	def check_valid(self, entry, autosort, type_name, wire, expected, forms, answer, descriptor=None):
 		# pylint: disable=too-many-locals,too-many-branches,too-many-statements
 		ctx = self.ctx
 		case = self.case_of(entry, autosort, wire, type=type_name, expected=expected)
@@ -729,7 +803,7 @@ class Side:
 		for form in forms:
 			ctx.count(f'form:{form}')
 		ctx.count(f'valid:{self.name}:{entry}')
-		status, transaction = self.run_impl(entry, autosort, wire)
+		status, transaction = self.run_impl(entry, autosort, wire, descriptor=descriptor)
 		if 'timeout' == status:
 			return
 		described = {codec_unfix(key) for key, _ in dict_pairs(wire)}
@@ -1041,6 +1115,215 @@ class Side:
 
 	# endregion
 
+	# region type-rule overrides
+
+	def override_class(self, type_name):
+		"""the class whose entry in type_rule_overrides replaces the parser of members of this type (independent statement of add_pod_parser)"""
+		typedef = self.net.types[type_name]
+		if 'int' == typedef['k']:
+			return ('module', type_name)
+		if 'bytes' == typedef['k'] and type_name in self.sdk_mapping:
+			return ('sdk', self.sdk_mapping[type_name])
+		return None
+
+	def slot_calls(self, type_name, value, table):
+		"""the override invocations converting `value` (descriptor wire) for a member or element of type `type_name` must make, in order"""
+		key = self.override_class(type_name)
+		if key in table:
+			return [(key, value)]
+		typedef = self.net.types[type_name]
+		if 'struct' == typedef['k'] and type_name in self.facts['structRules'] and value is not None and 'd' in value:
+			return self.descriptor_calls(type_name, dict_pairs(value), table, top=False)
+		return []
+
+	def descriptor_calls(self, type_name, pairs, table, top=True):
+		fields = {codec.fix_name(field['name']): field for field in self.net.carrying(type_name)}
+		calls = []
+		for key, value in pairs:
+			if top and 'type' == key:
+				continue
+			kind = fields[key]['kind']
+			if 'ref' == kind['k']:
+				calls += self.slot_calls(kind['ty'], value, table)
+			elif 'array' == kind['k'] and kind['elem'] in self.facts['arrayRules'] and value is not None and 'l' in value:
+				for item in value['l']:
+					calls += self.slot_calls(kind['elem'], item, table)
+		return calls
+
+	def used_types(self, type_name, seen=None):
+		"""types of members, array elements and members of nested dictionaries of a transaction type"""
+		seen = seen if seen is not None else []
+		for field in self.net.carrying(type_name):
+			kind = field['kind']
+			target = kind.get('ty') or kind.get('elem')
+			if target and target not in seen:
+				seen.append(target)
+				if 'struct' == self.net.types[target]['k'] and target in self.facts['structRules']:
+					self.used_types(target, seen)
+		return seen
+
+	def gen_override_table(self, type_name):
+		"""-> list of ((kind, class name), spec); consulted classes used by the type, plus classes no rule consults"""
+		rng = self.rng
+		used = self.used_types(type_name)
+		consulted = sorted({self.override_class(name) for name in used if self.override_class(name)})
+		ignored = [('module', name) for name in used if self.net.types[name]['k'] in ('enum', 'struct')]
+		ignored += [('module', name) for name in used if 'bytes' == self.net.types[name]['k']] + [('sdk', 'Signature'), ('sdk', 'PrivateKey')]
+		chosen = rng.sample(consulted, min(len(consulted), rng.choice([1, 1, 2, 3]))) if consulted else []
+		if ignored and rng.random() < 0.6:
+			chosen.append(rng.choice(ignored))
+		table = []
+		for key in chosen:
+			if key in [entry[0] for entry in table]:
+				continue
+			kind, name = key
+			options = ['identity', 'const', 'const', 'raise', 'list', 'int2str']
+			if 'module' == kind and name in self.net.types and 'int' == self.net.types[name]['k']:
+				options += ['wrap', 'wrap']
+			choice = rng.choice(options)
+			spec = {'k': choice}
+			if 'wrap' == choice:
+				spec['cls'] = name
+			if 'const' == choice:
+				values = [w_int(654321), w_str('fake value'), w_bytes(b'\x01\x02'), None]
+				if 'module' == kind and name in self.net.types and 'int' == self.net.types[name]['k']:
+					typedef = self.net.types[name]
+					values += [w_codec(name, str(rng.boundary_int(8 * typedef['w'], typedef['signed'])))] * 3
+				if 'sdk' == kind and name in self.sdk:
+					size = self.address_class.SIZE if 'Address' == name else self.sdk[name].SIZE
+					values += [w_sdk(name, rng.bytes_(size))] * 3
+				spec['v'] = rng.choice(values)
+			table.append((key, spec))
+		return table
+
+	def make_converter(self, key, spec, log):
+		constant = self.materialize(spec['v']) if 'const' == spec['k'] else None
+		module_class = getattr(self.net.module, spec['cls']) if 'wrap' == spec['k'] else None
+
+		def converter(value):
+			log.append((key, value))
+			if 'identity' == spec['k']:
+				return value
+			if 'const' == spec['k']:
+				return constant
+			if 'raise' == spec['k']:
+				raise ValueError('this override refuses every value')
+			if 'list' == spec['k']:
+				return [value]
+			if 'int2str' == spec['k']:
+				return str(value) if isinstance(value, int) and not isinstance(value, bool) else value
+			return module_class(value)
+		return converter
+
+	def check_overrides(self, entry, autosort, type_name, friendly, sequence):
+		"""one factory built with a random type_rule_overrides table, one descriptor: who is asked to convert what, and what comes out"""
+		# pylint: disable=too-many-locals,too-many-branches
+		ctx = self.ctx
+		embedded = 'create_embedded' == entry
+		if autosort and any(
+			'sizeRef' == field['kind']['k'] for name in [type_name] + self.used_types(type_name) if 'struct' == self.net.types[name]['k']
+			for field in self.net.types[name]['fields']):
+			autosort = False  # see ASSUMPTIONS: sort() measures such structs, and measuring an ill-typed member raises in Python only
+		wire, expected, forms = self.gen_valid(type_name, friendly, embedded, full=ctx.rng.random() < 0.5)
+		table = self.gen_override_table(type_name)
+		keys = [key for key, _ in table]
+		for field in self.net.carrying(type_name):
+			if autosort and 'array' == field['kind']['k'] and field['kind']['sortKey']:
+				inside = [field['kind']['elem']] + self.used_types(field['kind']['elem'])
+				if any(self.override_class(name) in keys for name in inside):
+					autosort = False  # see ASSUMPTIONS: Python can order ill-typed keys (equal ints, strs), the codec model has no order for them
+		log = []
+		overrides = {}
+		for key, spec in table:
+			kind, name = key
+			cls = getattr(self.net.module, name, None) if 'module' == kind else self.sdk.get(name)
+			if cls is not None:
+				overrides[cls] = self.make_converter(key, spec, log)
+		factory = self.factory_class(self.facade.network, overrides)
+		case = self.case_of(entry, autosort, wire, type=type_name, overrides=[[key[0], key[1], spec] for key, spec in table])
+		ctx.case((self.cid, 'overrides', entry, autosort, codec.dumps(wire), codec.dumps(case['overrides'])), None)
+		ctx.count(f'overrides:{self.name}')
+		for _, spec in table:
+			ctx.count(f'override-kind:{spec["k"]}')
+
+		answer = None
+		if ctx.driver:
+			config = dict(self.config, overrides=case['overrides'])
+			cid = f'{self.cid}#ov{sequence}'
+			registered, answer = ctx.driver.ask_many([
+				f'config {cid} {self.name} {codec.dumps(config)}',
+				f'create {cid} {1 if autosort else 0} {1 if embedded else 0} {codec.dumps(wire)}'])
+			if 'ok' != registered:
+				self.corr_fail(f'driver rejected an override table: {registered}', case)
+				answer = None
+
+		status, transaction = self.run_impl(entry, autosort, wire, factory=factory)
+		if 'timeout' == status:
+			return
+
+		# who was asked: exactly the described values of the overridden types, in descriptor order, each as the caller wrote it
+		consulted = {self.override_class(name) for name in self.net.types if self.override_class(name)}
+		wanted = self.descriptor_calls(type_name, dict_pairs(wire), [key for key in keys if key in consulted])
+		seen = [(key, self.fingerprint(value)) for key, value in log]
+		wanted_prints = [(key, self.fingerprint(self.materialize(value))) for key, value in wanted]
+		if 'ok' == status and seen != wanted_prints or seen != wanted_prints[:len(seen)]:
+			ctx.fail('property', f'{self.label(case)} with overrides {case["overrides"]}: the overrides were asked to convert {len(seen)} values '
+				f'{[key for key, _ in seen][:12]}, the descriptor holds {len(wanted_prints)} values of the overridden types {[key for key, _ in wanted_prints][:12]} '
+				f'(or they were not handed the values as written)', case)
+		if any(key not in consulted for key, _ in log):
+			ctx.fail('property', f'{self.label(case)}: an override for a class that has no pod parser was invoked', case)
+
+		# members no override can reach read back as without overrides
+		affected = set()
+		fields = {codec.fix_name(field['name']): field for field in self.net.carrying(type_name)}
+		for key, value in dict_pairs(wire):
+			if 'type' != key and self.descriptor_calls(type_name, [(key, value)], keys):
+				affected.add(fields[key]['name'])
+		if 'ok' != status:
+			if not wanted and not self.legitimately_refused(type_name, expected):
+				ctx.fail('property', f'{self.label(case)}: refused although no described value is of an overridden type ({transaction})', case)
+			ctx.count('overrides:refused')
+		elif type(transaction).__name__ == type_name:
+			want = self.sorted_expected(type_name, expected) if autosort else expected
+			expected_id = self.expected_ids(type_name, want) if not affected else None
+			state = self.state_wire(type_name, transaction)
+			for (name, have), (_, wanted_value) in zip(state['f'], want['f']):
+				if name in affected or ('id' == name and (affected or expected_id is not None)):
+					if 'id' == name and not affected and have != expected_id:
+						ctx.fail('property', f'{self.label(case)}: id is {have}, not {expected_id}', case)
+					continue
+				if have != wanted_value:
+					ctx.fail('property', f'{self.label(case)} with overrides {case["overrides"]}: member {name}, which no override can reach, is '
+						f'{str(have)[:150]} instead of {str(wanted_value)[:150]}', dict(case, member=name))
+					break
+			# an override that returns an object of the member's own class: the member holds that object
+			for key, value in dict_pairs(wire):
+				if 'type' == key or 'ref' != fields[key]['kind']['k']:
+					continue
+				slot_type = fields[key]['kind']['ty']
+				spec = dict(table).get(self.override_class(slot_type))
+				if spec and 'const' == spec['k'] and spec['v'] is not None and spec['v'].get('codec') == slot_type:
+					have = dict((name, item) for name, item in state['f'])[fields[key]['name']]
+					if have != spec['v']['v'] and fields[key]['name'] != 'id':
+						ctx.fail('property', f'{self.label(case)}: member {key} is {have}, the override returns {spec["v"]["v"]}', case)
+			ctx.count('overrides:accepted')
+		self.compare_with_model(case, answer, status, transaction)
+
+	def check_one_descriptor_two_networks(self, other, entry, autosort, type_name, friendly):
+		"""the same descriptor object handed to the factories of two networks, in both orders: each transaction carries its own factory's network"""
+		ctx = self.ctx
+		embedded = 'create_embedded' == entry
+		wire, expected, forms = self.gen_valid(type_name, friendly, embedded, full=ctx.rng.random() < 0.3)
+		for order in ((self, other), (other, self)):
+			descriptor = self.materialize(wire)
+			for side in order:
+				own = {'s': expected['s'], 'f': [[name, str(side.network_id) if 'network' == name else value] for name, value in expected['f']]}
+				answer = ctx.driver.ask(side.request(entry, autosort, wire)) if ctx.driver else None
+				ctx.count('one-descriptor-two-networks')
+				side.check_valid(entry, autosort, type_name, wire, own, forms, answer, descriptor=descriptor)
+
+	# endregion
+
 	def check_reflection(self):
 		"""names the model takes for properties (the keys copy_to lets through) and constructor defaults, against the generated classes"""
 		ctx = self.ctx
@@ -1120,6 +1403,14 @@ def codec_unfix(key):
 	return key[:-1] if key in ('type_', 'property_') else key
 
 
+def first_difference_plain(left, right, path=''):
+	if isinstance(left, (tuple, list)) and isinstance(right, (tuple, list)) and len(left) == len(right) and type(left) is type(right):
+		for index, (a, b) in enumerate(zip(left, right)):
+			if a != b:
+				return first_difference_plain(a, b, f'{path}[{index}]')
+	return f'{path or "descriptor"}: {str(left)[:150]} became {str(right)[:150]}'
+
+
 def first_difference(left, right, path=''):
 	if isinstance(left, dict) and isinstance(right, dict) and 'f' in left and 'f' in right and left.get('s') == right.get('s'):
 		for (name, a), (_, b) in zip(left['f'], right['f']):
@@ -1137,6 +1428,7 @@ def run(ctx):
 	per_combo = ctx.scale(5, 400)
 	corrupt_from = ctx.scale(2, 60)
 	sides = []
+	others = {}
 	for index, name in enumerate(('symbol', 'nem')):
 		quick_choice = ['testnet', 'mainnet'][(ctx.seed + index) % 2]
 		for current in (['testnet', 'mainnet'] if ctx.thorough else [quick_choice]):
@@ -1186,6 +1478,23 @@ def run(ctx):
 				for (entry, type_name, wire, expected, forms), answer in zip(history, answers):
 					ctx.count(f'history:{"-".join(part.replace("create_", "") for part in order)}')
 					side.check_valid(entry, True, type_name, wire, expected, forms, answer)
+		# factories built with type_rule_overrides
+		sequence = 0
+		for entry in entries:
+			names = side.transaction_names('create_embedded' == entry)
+			for _ in range(ctx.scale(2, 60)):
+				for type_name, friendly in names:
+					sequence += 1
+					side.check_overrides(entry, ctx.rng.random() < 0.5, type_name, friendly, sequence % 4)
+		# one descriptor object, two networks, both orders
+		other = others.get((side.name, side.network_name))
+		if other is None:
+			other = Side(ctx, side.name, 'mainnet' if 'testnet' == side.network_name else 'testnet')
+			others[(other.name, other.network_name)] = side
+		for entry in entries:
+			for type_name, friendly in side.transaction_names('create_embedded' == entry):
+				for _ in range(ctx.scale(1, 10)):
+					side.check_one_descriptor_two_networks(other, entry, ctx.rng.random() < 0.5, type_name, friendly)
 		if not side.facts['embBase']:
 			# the nem factory has no create_embedded
 			if hasattr(side.facade.transaction_factory, 'create_embedded'):
@@ -1219,10 +1528,11 @@ MANIFEST = {
 	'level_text': (
 		'Theorems over the descriptor model for all descriptors, types and configurations: create_holds_described (every described member holds '
 		'its coerced value, every other member its constructor default, network forced, type/version constants), rejection theorems for unknown '
-		'non-member (private, method, class-constant) and computed keys, unknown type / enum / flag names and out-of-range pod integers, autosort_canonical and ids_autofilled; the model is tied '
+		'non-member (private, method, class-constant) and computed keys, unknown type / enum / flag names and out-of-range pod integers, override_takes_precedence / override_only_affects_named_type / create_holds_override for type_rule_overrides, create_ignores_described_network, autosort_canonical and ids_autofilled; the model is tied '
 		'to the two factories by a differential run over every transaction name x entry point x autosort and by rule lists re-read from the sources.'),
 	'level_note': (
-		'partial: type-rule overrides (AccountDescriptorRepository) are not modelled; duck-typed inputs outside the documented forms are excluded; '
+		'partial: the AccountDescriptorRepository that builds override tables for the facades is not modelled (the override mechanism of the '
+		'factories is); duck-typed inputs outside the documented forms are excluded; '
 		'hashes and UTF-8 validity are parameters; the model is hand-written and tied by differential execution; known finding: negative flag '
 		'integers are accepted as complements (the hasattr-based key test of copy_to, which let private-attribute, method-name and class-attribute '
 		'keys through, was repaired: such keys are rejected and the check reports them as violations if they are accepted again).'),
